@@ -116,11 +116,12 @@ def condemnedOf (b : Int) (E : List Int) (pods : List Pod) : List Pod :=
 
 def maxInt32 : Int := 2147483647
 
-/-- first-unhealthy scan (control.go:374-396), sentinel `math.MaxInt32` included -/
+/-- first-unhealthy scan (control.go:388-411): the first unhealthy pod met is recorded whatever its ordinal (repaired: the
+    sentinel `math.MaxInt32` used to hide a pod at that very ordinal), later ones only with a smaller ordinal -/
 def firstUnhealthy (ps : List Pod) : Option Pod × Nat :=
   ps.foldl (fun (acc : (Option Pod × Int) × Nat) p =>
       if !p.healthy then
-        if p.ord < acc.1.2 then ((some p, p.ord), acc.2 + 1) else (acc.1, acc.2 + 1)
+        if acc.1.1.isNone || p.ord < acc.1.2 then ((some p, p.ord), acc.2 + 1) else (acc.1, acc.2 + 1)
       else acc) ((none, maxInt32), 0)
   |> fun r => (r.1.1, r.2)
 
